@@ -55,6 +55,7 @@ class TU:
         self._file = None
         self._line = None
         self._ns = 0
+        self._infn = 0
         self._index(self.root, None, [])
         self._files = {}
 
@@ -105,7 +106,7 @@ class TU:
             return
         if k == 'EnumDecl':
             n['_cls'] = cls
-            if self.in_repo(n): self.enums.append(n)
+            if self.in_repo(n) and not self._infn: self.enums.append(n)
         if k == 'TypedefDecl' and self.in_repo(n) and cls is None:
             self.typedefs.append(n)
         elif k == 'TypedefDecl' and not scope and n.get('name') and not self._ns:
@@ -129,8 +130,11 @@ class TU:
             n['_cls'] = cls
         if k == 'EnumConstantDecl':
             n['_cls'] = cls
+        isfn = k in ('FunctionDecl', 'CXXMethodDecl', 'CXXConstructorDecl', 'CXXDestructorDecl', 'CXXConversionDecl')
+        if isfn: self._infn += 1
         for c in n.get('inner', []):
             self._index(c, cls, scope)
+        if isfn: self._infn -= 1
 
     def in_repo(self, n):
         l = n.get('loc') or n.get('range', {}).get('begin') or {}
@@ -315,12 +319,12 @@ class Emitter:
         m = '/*@LOOP %d@*/' % self.loops; self.loops += 1; return m
 
     def s_WhileStmt(self, n, ind):
-        c = self.kids(n); m = self.loopmark()
-        return self.line(n, ind) + ind + 'while (' + self.e(c[0]) + ') ' + m + '\n' + self.body(c[1], ind)
+        c = self.kids(n); m = self.loopmark(); k = self.loops - 1
+        return self.line(n, ind) + ind + '/*@BEFORELOOP %d@*/\n' % k + ind + 'while (' + self.e(c[0]) + ') ' + m + '\n' + self.body(c[1], ind) + ind + '/*@AFTERLOOP %d@*/\n' % k
 
     def s_DoStmt(self, n, ind):
-        c = self.kids(n); m = self.loopmark()
-        return self.line(n, ind) + ind + 'do ' + m + '\n' + self.body(c[0], ind) + ind + 'while (' + self.e(c[1]) + ');\n'
+        c = self.kids(n); m = self.loopmark(); k = self.loops - 1
+        return self.line(n, ind) + ind + '/*@BEFORELOOP %d@*/\n' % k + ind + 'do ' + m + '\n' + self.body(c[0], ind) + ind + 'while (' + self.e(c[1]) + ');\n' + ind + '/*@AFTERLOOP %d@*/\n' % k
 
     def s_ForStmt(self, n, ind):
         c = n['inner']  # init, condvar, cond, inc, body ({} placeholders when absent)
@@ -333,13 +337,13 @@ class Emitter:
             if len(lines) > 1:        # several declarators: hoist into an enclosing block
                 cond = self.e(c[2]) if c[2].get('kind') else ''
                 inc = self.e(c[3]) if c[3].get('kind') else ''
-                m = self.loopmark()
-                return self.line(n, ind) + ind + '{ ' + ' '.join(l.strip() for l in lines) + '\n' + ind + 'for (; ' + cond + '; ' + inc + ') ' + m + '\n' + self.body(c[4], ind) + ind + '}\n'
+                m = self.loopmark(); k = self.loops - 1
+                return self.line(n, ind) + ind + '{ ' + ' '.join(l.strip() for l in lines) + '\n' + ind + '/*@BEFORELOOP %d@*/\n' % k + ind + 'for (; ' + cond + '; ' + inc + ') ' + m + '\n' + self.body(c[4], ind) + ind + '/*@AFTERLOOP %d@*/\n' % k + ind + '}\n'
         if c[1].get('kind'): raise Unsupported('for with condition variable')
         cond = self.e(c[2]) if c[2].get('kind') else ''
         inc = self.e(c[3]) if c[3].get('kind') else ''
-        m = self.loopmark()
-        return self.line(n, ind) + ind + 'for (' + init + ' ' + cond + '; ' + inc + ') ' + m + '\n' + self.body(c[4], ind)
+        m = self.loopmark(); k = self.loops - 1
+        return self.line(n, ind) + ind + '/*@BEFORELOOP %d@*/\n' % k + ind + 'for (' + init + ' ' + cond + '; ' + inc + ') ' + m + '\n' + self.body(c[4], ind) + ind + '/*@AFTERLOOP %d@*/\n' % k
 
     def s_ReturnStmt(self, n, ind):
         c = self.kids(n)
@@ -1025,12 +1029,43 @@ class Prelude:
 
     def _enum_items(self, e):
         items = []
+        self.enum_values = getattr(self, 'enum_values', [])
         for c in e.get('inner', []):
             if c.get('kind') != 'EnumConstantDecl': continue
             v = None
-            for k in c.get('inner', []):
-                if k.get('kind') == 'ConstantExpr' and 'value' in k: v = k['value']
+            def find(n):
+                if n.get('kind') == 'ConstantExpr' and 'value' in n: return n['value']
+                for k in n.get('inner', []):
+                    r = find(k)
+                    if r is not None: return r
+                return None
+            init = [k for k in c.get('inner', []) if k.get('kind') != 'FullComment']
+            if init:
+                v = find(c)
+                if v is None: raise Unsupported('enumerator %s has an initialiser without a constant value' % c['name'])
             items.append(c['name'] + (' = ' + v if v is not None else ''))
+        return items
+
+    def layout_items(self):
+        """(C expression, C++ expression) pairs whose values must agree between the emitted C types and
+        the real headers (R7): sizeof / offsetof of every emitted record, value of every enumerator"""
+        items = []
+        for r, fs in sorted(self.layout.items()):
+            cxx = r.replace('__', '::')
+            tag = 'union' if self.tu.records[r].get('tagUsed') == 'union' else 'struct'
+            items.append(('sizeof(%s %s)' % (tag, r), 'sizeof(%s)' % cxx))
+            for f in fs:
+                if '{' in f: continue
+                m = re.search(r'(\w+)\s*(\[\d*\])*\s*;$', f) or re.search(r'\(\*\s*(\w+)\)', f)
+                m2 = re.search(r'\(\*\s*(\w+)\)', f)
+                nm = (m2 or m).group(1)
+                if nm in ('vptr_', 'verif_empty_'): continue
+                items.append(('offsetof(%s %s, %s)' % (tag, r, nm), 'offsetof(%s, %s)' % (cxx, nm)))
+        for e in self.tu.enums:
+            cls = e.get('_cls')
+            for c in e.get('inner', []):
+                if c.get('kind') != 'EnumConstantDecl': continue
+                items.append(('(long)%s' % c['name'], '(long)%s%s' % ((cls.replace('__', '::') + '::') if cls else '', c['name'])))
         return items
 
     def emit_global(self, name, em_factory):
